@@ -1,8 +1,69 @@
 import NauyacaVerif.Drv.Common
+import NauyacaVerif.Cl.Client
 namespace NauyacaVerif.Drv.ClientD
-open NauyacaVerif.Drv
+open NauyacaVerif.Drv Cl
 
-/-- line-protocol handler of this area; `none` = not one of ours -/
+/-! `client <decodeText:0|1> <utf8:0|1> <int:n|none> <text:0|1> <dec:n> <ev>*`   (C13)
+
+    The four oracle words say what the Python library functions do on THIS case (the harness computes
+    them): does the header line decode as UTF-8, what does `int()` return for the status token, is the
+    meta text/*, what does `bytes.decode(charset)` do on the body (0 ok, 1 UnicodeDecodeError,
+    2 LookupError, 3 another exception).
+    ev     ::= `d:<piece>+<piece>…` | `l:0` | `l:1`         read / connection_lost(None) / connection_lost(exc)
+    piece  ::= `<hex>` | `*<byte>*<count>`                  literal bytes / a run of one byte
+    output ::= `ok <fut> closed=<0|1>`
+    fut    ::= `pending` | `err:<kind>` | `resp:<status>:<meta-hex>:<none | <decoded 0|1>:<len>:<adler32>>` -/
+
+def unhexTR (cs : List Char) : List Nat :=
+  let rec go : List Char → List Nat → List Nat
+    | a :: b :: r, acc => go r ((hexVal a * 16 + hexVal b) :: acc)
+    | _, acc => acc.reverse
+  go cs []
+
+def parsePiece (s : String) : Option Bytes :=
+  if s.startsWith "*" then
+    match s.splitOn "*" with
+    | [_, b, n] => match b.toNat?, n.toNat? with
+      | some byte, some cnt => some (List.replicate cnt byte)
+      | _, _ => none
+    | _ => none
+  else if s == "-" then some []
+  else some (unhexTR s.toList)
+
+def parseEv (s : String) : Option CEv :=
+  if s == "l:0" then some (.lost false)
+  else if s == "l:1" then some (.lost true)
+  else if s.startsWith "d:" then
+    match (((s.drop 2).toString).splitOn "+").mapM parsePiece with
+    | some ps => some (.data ps.flatten)
+    | none => none
+  else none
+
+def adler32 (b : Bytes) : Nat :=
+  let r := b.foldl (fun (p : Nat × Nat) x => ((p.1 + x) % 65521, (p.2 + (p.1 + x) % 65521) % 65521)) (1, 0)
+  r.2 * 65536 + r.1
+
+def showFut : Fut → String
+  | .pending => "pending"
+  | .error k => s!"err:{k}"
+  | .response st m none _ => s!"resp:{st}:{toHex m}:none"
+  | .response st m (some b) d => s!"resp:{st}:{toHex m}:{if d then 1 else 0}:{b.length}:{adler32 b}"
+
+def parseBit (s : String) : Option Bool := if s == "1" then some true else if s == "0" then some false else none
+
+def parseIntOpt (s : String) : Option (Option Int) :=
+  if s == "none" then some none
+  else match s.toInt? with
+    | some n => some (some n)
+    | none => none
+
 def handle : List String → Option String
+  | "client" :: dt :: utf8 :: int :: text :: dec :: evs =>
+    match parseBit dt, parseBit utf8, parseIntOpt int, parseBit text, dec.toNat?, evs.mapM parseEv with
+    | some dtb, some u, some n, some t, some d, some es =>
+      let env : Env := ⟨fun _ => u, fun _ => n, fun _ => t, fun _ _ => d⟩
+      let s := crunFrom env (init dtb) es
+      some s!"ok {showFut s.fut} closed={if s.closeReq then 1 else 0}"
+    | _, _, _, _, _, _ => some "bad-op"
   | _ => none
 end NauyacaVerif.Drv.ClientD
